@@ -98,9 +98,9 @@ def rule_semiopen(ctx):
     ys = [n for n in walk_no_nested(g.node) if isinstance(n, ast.Yield)]
     cond = None
     if ys:
-        p_ = parent(enclosing_stmt(ys[0]))
-        if isinstance(p_, ast.If):
-            cond = p_.test
+        from ..flow import facts_at
+        hits = [e_ for e_, tr_ in facts_at(enclosing_stmt(ys[0])) if tr_ and any(n_ is ov[0] for n_ in ast.walk(e_))]
+        cond = hits[0] if hits else None
 
     def val(form, S, E):
         return form.get("S", 0) * S + form.get("E", 0) * E + form.get("tick", 0)
@@ -223,12 +223,18 @@ def rule_prune(ctx):
     # _check_placeholders comparison + model
     h = ctx.func(FILESET, "FileSet._check_placeholders")
     hs, he = h.params[2], h.params[3]
-    rets = sorted([r for r in walk_no_nested(h.node) if isinstance(r, ast.Return) and isinstance(r.value, ast.BoolOp)], key=lambda r: r.lineno)
-    if not rets:
-        raise AnalysisError("_check_placeholders: comparison not found")
-    main = rets[0].value
-    merged = [st for st in walk_no_nested(h.node) if isinstance(st, ast.Assign) and norm(st.targets[0]) == "attr_end" and isinstance(st.value, ast.Dict)]
-    okm = bool(merged) and [norm(v) for v in merged[0].value.values] == ["attr_start", "attr_end"]
+    tries = [t_ for t_ in walk_no_nested(h.node) if isinstance(t_, ast.Try)]
+    if len(tries) != 1 or len(tries[0].handlers) != 1:
+        raise AnalysisError("_check_placeholders: the comparison inside try/except was not found")
+    from ..normalize import _returns_to_ifexp
+    main = _returns_to_ifexp(tries[0].body)
+    fbx = _returns_to_ifexp(tries[0].handlers[0].body)
+    if main is None or fbx is None:
+        raise AnalysisError("_check_placeholders: try body / handler is not a decision between returned values")
+    rets = [r for r in walk_no_nested(tries[0]) if isinstance(r, ast.Return)]
+    merged = [st for st in walk_no_nested(h.node) if isinstance(st, ast.Assign) and norm(st.targets[0]) == "attr_end"
+              and norm(st.value) == "{**attr_start, **attr_end}"]
+    okm = bool(merged)
     a_coef = -1 if okf else None
     bad = None
     n = 0
@@ -255,12 +261,20 @@ def rule_prune(ctx):
     ctx.models.append({"rule": "C01.prune", "cases": n, "domain": "ticks 6..24, periods 3 and 6, files up to one fine period long", "exhaustive": False})
     ctx.ob("FileSet._check_placeholders.sound", bad is None and okm and a_coef is not None, "directory passes iff %s (end fields merged over start fields: %s); %d overlapping cases" % (norm(main), okm, n),
            "(file overlaps [S, E) and lasts <= one finest period and sits in the directory of its start) => its directory passes on both levels",
-           node=rets[0], func=h, witness=bad)
+           node=tries[0], func=h, witness=bad)
     # fallback: year-only comparison with the same shape
-    fb = [r for r in rets[1:]]
-    okfb = bool(fb) and norm(fb[0].value).replace('"', "'") == "year >= %s.year and attr_end['year'] <= %s.year" % (hs, he)
-    ctx.ob("FileSet._check_placeholders.fallback", okfb or len(rets) == 1, "%s" % (norm(fb[0].value) if fb else "no fallback"),
-           "the year-only fallback keeps the same shape (>= start, <= end)", node=fb[0] if fb else h.node, func=h)
+    # fallback: year-only comparison with the same shape, decided on all orderings of (year, start.year) and (end year, end.year)
+    okfb = True
+    for y, sy, ey, eny in itertools.product(range(3), repeat=4):
+        env = {"year": y, "%s.year" % hs: sy, "attr_end['year']": ey, 'attr_end["year"]': ey, "%s.year" % he: eny}
+        try:
+            got = bool(Interp(env).ev(fbx))
+        except AnalysisError as e_:
+            raise AnalysisError("_check_placeholders: fallback %s outside the model: %s" % (norm(fbx)[:80], e_))
+        if got != (y >= sy and ey <= eny):
+            okfb = False
+    ctx.ob("FileSet._check_placeholders.fallback", okfb, "%s" % norm(fbx),
+           "the year-only fallback keeps the same shape (>= start, <= end)", node=tries[0].handlers[0], func=h)
 
 
 def rule_exclude(ctx):
@@ -270,17 +284,12 @@ def rule_exclude(ctx):
     ok = False
     fact = None
     if len(ys) == 1:
-        guards = []
-        n = parent(enclosing_stmt(ys[0]))
-        child = enclosing_stmt(ys[0])
-        while n is not None and not isinstance(n, ast.FunctionDef):
-            if isinstance(n, ast.If) and child in n.body:
-                guards.extend(norm(c) for c in conjuncts(n.test))
-            child = n
-            n = parent(n)
+        from ..flow import facts_at
+        fa = facts_at(enclosing_stmt(ys[0]))
+        guards = [("" if tr else "not ") + str(norm(e)) for e, tr in fa]
         fact = guards
-        ok = "not self.is_excluded(file_info)" in guards and any("interval_overlaps(file_info.times" in x for x in guards) and any("regex.match" in x for x in guards) \
-            and norm(ys[0].value) == "file_info"
+        ok = "not self.is_excluded(file_info)" in guards and any(x.startswith("IntervalTree.interval_overlaps(file_info.times") for x in guards) \
+            and any(x.startswith("regex.match") for x in guards) and norm(ys[0].value) == "file_info"
     ctx.ob("FileSet._get_matching_files.yield", ok, "yield guarded by %s" % fact, "regex match, interval overlap and `not self.is_excluded(file_info)`", node=ys[0] if ys else g.node, func=g)
     e = ctx.func(FILESET, "FileSet.is_excluded")
     body = [norm(s) for s in e.body]
@@ -371,7 +380,7 @@ def rule_sort_bundle(ctx):
     ctx.rule("C01.sortkey", "T6+T4", "the stream is sorted exactly when sort or an integer bundle is requested, ascending by (t0, t1)")
     f = ctx.func(FILESET, "FileSet._prepare_find_return")
     fi, so, op, bs = f.params[:4]
-    first = f.body[0]
+    first = next((s_ for s_ in f.body if not isinstance(s_, (ast.FunctionDef, ast.Assign))), f.body[0])
     ok = False
     fact = None
     if isinstance(first, ast.If):
@@ -384,7 +393,28 @@ def rule_sort_bundle(ctx):
         if ok:
             kw = {k.arg: k.value for k in srt[0].keywords}
             key = kw.get("key")
-            okk = isinstance(key, ast.Lambda) and norm(key.body).replace(" ", "") in ("(x.times[0],x.times[1])", "tuple(x.times)", "x.times") and "reverse" not in kw
+            kx = None
+            if isinstance(key, ast.Lambda) and len(key.args.args) == 1:
+                kx = (key.args.args[0].arg, key.body)
+            elif isinstance(key, ast.Name):
+                nested = [n_ for n_ in ast.walk(f.node) if isinstance(n_, ast.FunctionDef) and n_ is not f.node and n_.name == key.id]
+                if len(nested) == 1 and len(nested[0].args.args) == 1:
+                    from ..flow import straight_env
+                    rr = [r_ for r_ in nested[0].body if isinstance(r_, ast.Return)]
+                    if len(rr) == 1 and nested[0].body[-1] is rr[0]:
+                        env_ = straight_env(nested[0], upto=rr[0])
+
+                        class _S(ast.NodeTransformer):
+                            def visit_Name(self, n_):
+                                if isinstance(n_.ctx, ast.Load) and n_.id in env_:
+                                    return env_[n_.id]
+                                return n_
+                        from ..core import clone
+                        kx = (nested[0].args.args[0].arg, _S().visit(clone(rr[0].value)))
+            if key is not None and kx is None:
+                raise AnalysisError("_prepare_find_return: sort key %s not understood" % norm(key)[:60])
+            okk = kx is not None and norm(kx[1]).replace(" ", "") in ("(%s.times[0],%s.times[1])" % (kx[0], kx[0]), "tuple(%s.times)" % kx[0], "%s.times" % kx[0]) \
+                and "reverse" not in kw
             ok = okk and norm(srt[0].args[0]) == fi and norm(first.body[0].targets[0]) == fi
     ctx.ob("FileSet._prepare_find_return.sort", ok, fact, "sorted(files, key=(t0, t1)) ascending iff sort or isinstance(bundle, int)", node=first, func=f)
     d = ctx.func(FILESET, "FileSet.find").defaults()
@@ -408,7 +438,12 @@ def rule_sort_bundle(ctx):
     none_arm = [s for s in f.body if isinstance(s, ast.If) and norm(s.test) == "%s is None" % bs]
     okn = bool(none_arm) and [norm(s) for s in none_arm[0].body] == ["yield from %s" % fi, "return"]
     ts = [s for s in walk_no_nested(f.node) if isinstance(s, ast.Assign) and norm(s.targets[0]) == "time_series"]
-    okts = bool(ts) and norm(ts[0].value).replace(" ", "") == "pd.Series(files,[file.times[0]forfileinfiles])"
+    okts = False
+    if ts and isinstance(ts[0].value, ast.Call) and dotted(ts[0].value.func) == "pd.Series":
+        tc = ts[0].value
+        data = tc.args[0] if tc.args else next((k_.value for k_ in tc.keywords if k_.arg == "data"), None)
+        index = tc.args[1] if len(tc.args) > 1 else next((k_.value for k_ in tc.keywords if k_.arg == "index"), None)
+        okts = data is not None and index is not None and norm(data) == "files" and norm(index) == "[file.times[0] for file in files]"
     ctx.ob("FileSet._prepare_find_return.bundle_other", okn and okts, "no bundle: %s; by frequency: %s" % ([norm(s) for s in none_arm[0].body] if none_arm else None, norm(ts[0].value) if ts else None),
            "no bundle -> the stream itself; by frequency -> groups of the same list indexed by start time", node=f.node, func=f)
 
